@@ -47,6 +47,12 @@ struct Gen<'a, 'b> {
 
 impl<'a, 'b> Gen<'a, 'b> {
     fn num_arg(&mut self, depth: usize, scope: &[(Name, Ty)]) -> E {
+        if self.t.chance(1, 10) {
+            // an element of a program array that is named like a parameter: a parameter hides the
+            // variable of its name, not the array
+            let n = self.t.pick_str(&["X", "A", "P", "F"]);
+            return E::Elem(Name::new(n), vec![lit(self.t.range(1, 2))]);
+        }
         match self.t.below(7) {
             0 | 1 => lit(self.t.range(-3, 9)),
             2 => E::Lit(self.t.pick(&["1.5", "2.75", ".5", "3#", "2!", "7%"]).to_string()),
@@ -72,6 +78,10 @@ impl<'a, 'b> Gen<'a, 'b> {
     }
 
     fn str_arg(&mut self, depth: usize, scope: &[(Name, Ty)]) -> E {
+        if self.t.chance(1, 12) {
+            let n = self.t.pick_str(&["S$", "T$"]);
+            return E::Elem(Name::new(n), vec![lit(self.t.range(1, 2))]);
+        }
         match self.t.below(5) {
             0 => E::Str(self.t.pick(&["", "A", "HI", "é", "xyz"]).to_string()),
             1 => {
@@ -205,6 +215,12 @@ fn build(t: &mut Tape) -> (Program, bool, bool, &'static str) {
         Stmt::Let { lv: Lval::Var(Name::new("T$")), e: E::Str("t".into()), kw: false },
         Stmt::Let { lv: Lval::Var(Name::new("N%")), e: lit(3), kw: false },
     ]);
+    // arrays named like parameters
+    {
+        let set = |n: &str, i: i64, e: E| Stmt::Let { lv: Lval::Elem(Name::new(n), vec![lit(i)]), e, kw: false };
+        lines.push(vec![set("X", 1, lit(11)), set("X", 2, lit(12)), set("A", 1, lit(21)), set("A", 2, lit(22)), set("P", 1, lit(31)), set("P", 2, lit(32))]);
+        lines.push(vec![set("F", 1, lit(41)), set("F", 2, lit(42)), set("S$", 1, E::Str("arr1".into())), set("S$", 2, E::Str("arr2".into())), set("T$", 1, E::Str("u1".into())), set("T$", 2, E::Str("u2".into()))]);
+    }
     let error_kind = *g.t.pick(&["none", "none", "none", "arity", "before-def", "recursion", "undefined"]);
     if error_kind == "before-def" {
         lines.push(vec![Stmt::Print(vec![PItem::Expr(E::Fn(Name::new("FNA"), vec![lit(1)]))])]);
@@ -216,6 +232,11 @@ fn build(t: &mut Tape) -> (Program, bool, bool, &'static str) {
             lines.last_mut().unwrap().push(d);
         } else {
             lines.push(vec![d]);
+        }
+        // statements behind a DEF on the same line see the program's variables again, not the
+        // parameters of the function just defined
+        if g.t.chance(1, 3) {
+            lines.last_mut().unwrap().push(print_all(&["A", "B%", "C#", "S$", "X", "P", "N%", "T$", "D!", "F"]));
         }
     }
     // a later DEF replaces an earlier one
@@ -253,6 +274,9 @@ fn build(t: &mut Tape) -> (Program, bool, bool, &'static str) {
             let set = |n: &str, e: E| Stmt::Let { lv: Lval::Var(Name::new(n)), e, kw: false };
             lines.push(vec![set("A", lit(2)), set("B%", lit(3)), set("C#", E::Lit("2.5".into())), set("S$", E::Str("glob".into())), set("X", lit(4)), set("G", lit(1)), set("T$", E::Str("t".into()))]);
             lines.push(vec![set("N%", lit(3)), set("P", lit(5)), set("F", lit(6)), set("H%", lit(0)), set("D!", lit(0)), set("U$", E::Str("".into()))]);
+            let sete = |n: &str, i: i64, e: E| Stmt::Let { lv: Lval::Elem(Name::new(n), vec![lit(i)]), e, kw: false };
+            lines.push(vec![sete("X", 1, lit(11)), sete("X", 2, lit(12)), sete("A", 1, lit(21)), sete("A", 2, lit(22)), sete("P", 1, lit(31)), sete("P", 2, lit(32))]);
+            lines.push(vec![sete("F", 1, lit(41)), sete("F", 2, lit(42)), sete("S$", 1, E::Str("arr1".into())), sete("S$", 2, E::Str("arr2".into())), sete("T$", 1, E::Str("u1".into())), sete("T$", 2, E::Str("u2".into()))]);
         }
         let s: Vec<Stmt> = match g.t.below(9) {
             0 | 1 => {
@@ -315,7 +339,8 @@ fn build(t: &mut Tape) -> (Program, bool, bool, &'static str) {
         "arity" => {
             let f = g.fns[g.t.below(g.fns.len())].clone();
             let mut args: Vec<E> = f.params.iter().map(|(_, ty)| if *ty == Ty::Str { E::Str("a".into()) } else { lit(1) }).collect();
-            if g.t.chance(1, 2) || args.len() == 1 {
+            // one too many, or one too few (down to an empty list: FNA() is a wrong count too)
+            if g.t.chance(1, 2) {
                 args.push(lit(2));
             } else {
                 args.pop();
